@@ -13,7 +13,7 @@ echo "--- demo WITH change:"; ( cd "$D/$DEST" && GOPROXY=off go test -mod=mod -v
 rm -f "$D/$DEST/$DEMO"
 echo "--- suite WITH change:"; ( cd "$D" && GOPROXY=off go test -mod=mod -vet=off -count=1 ./internal/... ./e2e/... 2>&1 | grep -v "no test files" | tail -6 )
 for p in "$@"; do
-  out=$(cd /verif && VERIF_REPO="$D" ./check "$p" ${TIER:-quick} 2>&1); code=$?
+  out=$(cd /verif && VERIF_SCRATCH_TAG="$(basename "$D")" VERIF_REPO="$D" ./check "$p" ${TIER:-quick} 2>&1); code=$?
   echo "--- check $p exit=$code; first: $(echo "$out" | grep -m1 '^violation\|^crash\|^hang\|^data races' | cut -c1-260)"
 done
-rm -rf "$D"
+rm -rf "$D" "/verif/.build/scratch-$(basename "$D")"
